@@ -46,23 +46,11 @@ type c39Replay struct {
 	Topics []c39Topic `json:"topics,omitempty"`
 }
 
-// c39LongName returns a DNS-1123 subdomain of exactly n characters (labels of at most 63).
-func c39LongName(n int) string {
-	if n <= 63 {
-		return strings.Repeat("a", n)
-	}
-	first := 63
-	if n == 64 { // never leave an empty label after the dot
-		first = 62
-	}
-	return strings.Repeat("a", first) + "." + c39LongName(n-first-1)
-}
-
 func c39Names(thorough bool) (names, namespaces []string) {
-	names = []string{"a", "demo", "my.cluster", "Demo", c39LongName(41), c39LongName(42), c39LongName(63), c39LongName(253)}
+	names = []string{"a", "demo", "my.cluster", "Demo", vopLongName(41), vopLongName(42), vopLongName(63), vopLongName(253)}
 	namespaces = []string{"d", "default", "Team-A", strings.Repeat("n", 63)}
 	if thorough {
-		names = append(names, "a-b", "a.b.c", "0", "x9", c39LongName(48), c39LongName(64), c39LongName(127))
+		names = append(names, "a-b", "a.b.c", "0", "x9", vopLongName(48), vopLongName(64), vopLongName(127))
 		namespaces = append(namespaces, "kafscale", "n0", strings.Repeat("n", 34), strings.Repeat("n", 35))
 	}
 	return
@@ -433,7 +421,7 @@ func TestVerifC39(t *testing.T) {
 		"Part B: (namespace, name) pairs through defaultEtcdSnapshotBucket/snapshotBucket and the rendered SNAPSHOT_BUCKET env values, checked against the S3 bucket grammar. " +
 		"Non-trivial: >=2 deployed brokers with a multi-partition topic (leader choice matters), or the advertised host is used, or broker count differs (A); the sanitiser rewrote the raw name or the result is invalid (B)."
 	rep.Assumptions = []string{
-		"controller-runtime fake client stands for the API server (no admission/CRD defaulting: replicas unset and replicas 0 reach the operator as written)",
+		"controller-runtime fake client stands for the API server: no admission/CRD defaulting, so replicas unset and replicas 0 reach the operator as written (the shipped Helm CRD has default 3 / minimum 1; both are enumerated because the Go type admits them and the code handles them explicitly)",
 		"a pod's stable address is <statefulset>-<ordinal>.<spec.serviceName>.<namespace>.svc.cluster.local unless KAFSCALE_BROKER_HOST is set in its env",
 		"S3 bucket grammar: 3-63 chars [a-z0-9.-], alphanumeric ends, no '..', not IP-formatted (reserved prefixes/suffixes not judged)",
 		"operator environment at defaults (no KAFSCALE_OPERATOR_ETCD_SNAPSHOT_BUCKET override: an operator-supplied bucket is not a derived name)",
@@ -539,7 +527,7 @@ func TestVerifC39(t *testing.T) {
 	nameLens = append(nameLens, 100, 253)
 	for _, nl := range nsLens {
 		for _, l := range nameLens {
-			sig, nt := c39CheckBucket(rep, scheme, strings.Repeat("n", nl), c39LongName(l), false)
+			sig, nt := c39CheckBucket(rep, scheme, strings.Repeat("n", nl), vopLongName(l), false)
 			rep.Eval(1)
 			rep.Count("bucket_cases_direct", 1)
 			rep.Outcome(sig, nt)
